@@ -26,6 +26,7 @@ struct Batch {
   int nthread = 0;          // workers + main
   int count[8] = {0};       // invocations per task id
   int inflight = 0;
+  int busy[16] = {0};       // invocations in flight per thread id (per-thread scratch memory is indexed by it)
   int bad_thread = 0, bad_task = 0;
   int batch_no = 0;
 };
@@ -39,8 +40,13 @@ static void task(const mjModel* m, mjData* d, void* arg, int thread_id, int task
   b->inflight++;
   if (task_id < 0 || task_id >= b->ntask) b->bad_task++; else b->count[task_id]++;
   if (thread_id < 0 || thread_id >= b->nthread) b->bad_thread++;
+  // thread ids address per-thread scratch memory in the engine (EPA buffers, stack shards): two invocations that run at
+  // the same time must never see the same id
+  bool idok = thread_id >= 0 && thread_id < 16;
+  if (idok && b->busy[thread_id]++) vsched::fail("two task invocations in flight at the same time share a thread id");
   vsched::log_event("run", thread_id, task_id);
   vsched::point(vsched::OP_USER, b, task_id);     // the task body is interruptible
+  if (idok) b->busy[thread_id]--;
   b->inflight--;
 }
 
